@@ -249,6 +249,34 @@ Lemma dns64_basis_outlives_gate :
   /\ dns64_bound None [PHit basis_gate; PHit basis_a] = Some (entry_end basis_gate).
 Proof. vm_compute. repeat split; reflexivity. Qed.
 
+(* the repaired A-basis reply (props/C04/fix2.patch): every relayed TTL is inside what is
+   left of EVERY consulted answer, the gate included, never above the TTL it replaces, and
+   unchanged when nothing reports a deadline *)
+Lemma dns64_basis_capped_inherits recs consulted now :
+  forall x, In x (dns64_basis_reply_capped recs consulted now) ->
+    (forall p d, In p consulted -> piece_fold p = Some d -> x * second <= Z.max 0 (d - now))
+    /\ (forall e, In (PHit e) consulted -> now < entry_end e -> x * second <= entry_end e - now)
+    /\ (exists p, In p recs /\ x <= piece_ttl p now
+                 /\ (dns64_bound None consulted = None -> x = piece_ttl p now)).
+Proof.
+  intros x Hx. unfold dns64_basis_reply_capped in Hx. apply in_map_iff in Hx.
+  destruct Hx as (q & <- & Hq).
+  assert (H1 : forall p d, In p consulted -> piece_fold p = Some d ->
+               dns64_cap (dns64_bound None consulted) now (piece_ttl q now) * second <= Z.max 0 (d - now)).
+  { intros p d Hin Hf. pose proof (dns64_bound_le None consulted p d Hin Hf) as Ho.
+    destruct (dns64_bound None consulted) as [c|] eqn:E; cbn in Ho; [|tauto].
+    pose proof (dns64_cap_within c now (piece_ttl q now)). lia. }
+  split; [exact H1|]. split.
+  - intros e Hin Hl. pose proof (H1 (PHit e) (bound_entry e) Hin eq_refl) as H.
+    rewrite bound_entry_eq in H. lia.
+  - exists q. split; [exact Hq|]. split; [apply dns64_cap_le|].
+    intros ->. reflexivity.
+Qed.
+
+Example dns64_basis_capped_example :
+  dns64_basis_reply_capped [PHit basis_a] [PHit basis_gate; PHit basis_a] (4 * second) = [1].
+Proof. vm_compute. reflexivity. Qed.
+
 Example dns64_relayed_example :
   dns64_ptr_reply [PHit basis_a; PFresh 30 (Some (9 * second))] (4 * second) = [600; 3598; 30]
   /\ dns64_bound None [PHit basis_a; PFresh 30 (Some (9 * second))] = Some (9 * second).
